@@ -386,8 +386,11 @@ def drive_replay(mod, path: str) -> int:
     k1 = sorted(x["key"] for x in r1)
     k2 = sorted(x["key"] for x in r2)
     if k1 != k2:
-        print(f"HARNESS-ERROR property={mod.PROPERTY}: replay not deterministic: {k1} vs {k2}")
-        return 2
+        # two replays in one process disagree: the behaviour depends on what ran before (itself a call-history dependence);
+        # report the union of what the two runs observed
+        print(f"note: the two replays in this process observed different things: {k1} vs {k2}")
+        have = {x["key"] for x in r1}
+        r1 = r1 + [x for x in r2 if x["key"] not in have]
     known = load_known(mod.PROPERTY)
     bad = [x for x in r1 if match_known(known, x) is None]
     for x in r1:
